@@ -290,6 +290,7 @@ class WSGIRequestHandler(BaseHTTPRequestHandler):
                         or code in {204, 304}
                     )
                     and self.protocol_version >= "HTTP/1.1"
+                    and self.request_version >= "HTTP/1.1"
                 ):
                     chunk_response = True
                     self.send_header("Transfer-Encoding", "chunked")
